@@ -696,7 +696,7 @@ Qed.
 (* every operation *)
 Theorem step_inv cfg e w o : Inv (w_o w) -> Inv (w_o (fst (step cfg e w o))).
 Proof.
-  intros I. destruct o as [p tape lie|signer m tape|to d a|sf st sd sa|q| | | |p2 tape2 lie2 k2]; cbn [step fst]; try exact I.
+  intros I. destruct o as [p tape lie|signer m tape|to d a|sf st sd sa|mv|q| | | |p2 tape2 lie2 k2]; cbn [step fst]; try exact I.
   - apply recv_inv. exact I.
   - apply step_msg_inv. exact I.
   - destruct (_ || _ || _); exact I.
